@@ -155,7 +155,8 @@ InitReader ==
       lines |-> <<>>,           \* line objects
       consts |-> <<>>,          \* constants bound while reading: [key, v]
       pc |-> 0,                 \* number of source lines consumed
-      status |-> "run", why |-> "" ]
+      \* an ISA definition with an ill-formed predefined zone is rejected before any line is read
+      status |-> IF PreZonesOk THEN "run" ELSE "err", why |-> IF PreZonesOk THEN "" ELSE "prezone" ]
 
 Fail(r, w) == [r EXCEPT !.status = "err", !.why = w]
 
